@@ -1,8 +1,70 @@
-(* C18 - the codec is generic over message layouts.  Theorems only. *)
-From UV Require Import Base.Bytes Model.WireTypes Model.Codec Model.Interp Proofs.TagProofs.
+(* C18 - the codec is generic over message layouts, not only right for the shipped messages.
+   Every theorem quantifies over ALL layouts L accepted by [wf_layout] (supported kinds, parseable fixed tags, every data
+   field inside bytes 2..63, no two fields sharing a byte) - i.e. over programs - and over all values / all byte strings.
+   Theorems only; proofs in Proofs/WireProofs.v, Proofs/CodecProofs.v, Proofs/TagProofs.v. *)
+From UV Require Import Base.Bytes Model.WireTypes Model.Codec Model.Interp Spec.WireSpec Spec.CodecSpec
+  Proofs.WireProofs Proofs.CodecProofs Proofs.TagProofs.
 Open Scope N_scope.
 
-(* Function-code / fixed-value tags written in decimal, 0x.., upper-case hex digits or 0X.. denote the same byte *)
+(* encoding writes exactly each field's protocol bytes at its declared offset, the tag bytes in the header and zero
+   elsewhere ([spec_image] is defined pointwise, byte by byte) - in particular it neither fails nor panics *)
+Theorem C18_marshal_bytes : forall L vs,
+  wf_layout L = true -> values_in_domain L vs = true -> marshal L vs = Ok (spec_image L vs).
+Proof. exact marshal_is_image. Qed.
+Print Assumptions C18_marshal_bytes.
+
+(* ... where inside the span of any field of the layout the image is that field's bytes *)
+Theorem C18_image_field : forall L (vs : list fval) f v off w i,
+  pairwise_disjoint (all_spans L) = true -> In (f, v) (combine L vs) -> fspan f = Some (off, w) ->
+  covers (off, w) i = true ->
+  image_at L vs i = match fbytes f v with Some bs => Some (nth (i - off) bs 0) | None => None end.
+Proof. exact image_at_field. Qed.
+Print Assumptions C18_image_field.
+
+(* the model's per-kind encoders (fmt + BCD strings, iterated division) produce the protocol bytes *)
+Theorem C18_kind_bytes : forall k v, in_domain k v = true -> enc_matches k v.
+Proof. exact enc_spec. Qed.
+Print Assumptions C18_kind_bytes.
+
+Theorem C18_marshal_total : forall L vs, wf_layout L = true -> values_in_domain L vs = true -> marshal L vs <> Panic.
+Proof. exact marshal_total. Qed.
+Print Assumptions C18_marshal_total.
+
+(* decoding never panics, whatever the bytes and their number *)
+Theorem C18_unmarshal_total : forall L buf, wf_layout L = true -> unmarshal L buf <> Panic.
+Proof. exact unmarshal_total. Qed.
+Print Assumptions C18_unmarshal_total.
+
+(* decoding is the protocol decoding: it fails only for a bad length/header/tag or a field outside its domain, and every
+   returned field is the protocol decoding of its bytes or the field's 'no value' *)
+Theorem C18_unmarshal_spec : forall L buf, wf_layout L = true -> spec_unmarshal_admits L buf (unmarshal L buf) = true.
+Proof. exact unmarshal_admitted. Qed.
+Print Assumptions C18_unmarshal_spec.
+
+Theorem C18_kind_decoding : forall k b, length b = width k -> dec_agrees k (dec k None b) (spec_dec k b) = true.
+Proof. exact dec_agrees_all. Qed.
+Print Assumptions C18_kind_decoding.
+
+(* decoding returns the encoded values *)
+Theorem C18_roundtrip : forall L vs m,
+  wf_layout L = true -> values_in_domain L vs = true -> marshal L vs = Ok m -> som_ok m = true ->
+  unmarshal L m = Ok (canon_vals L vs).
+Proof. exact unmarshal_marshal. Qed.
+Print Assumptions C18_roundtrip.
+
+Theorem C18_injective : forall L vs1 vs2 m,
+  wf_layout L = true -> values_in_domain L vs1 = true -> values_in_domain L vs2 = true ->
+  marshal L vs1 = Ok m -> marshal L vs2 = Ok m -> som_ok m = true -> canon_vals L vs1 = canon_vals L vs2.
+Proof. exact marshal_injective. Qed.
+Print Assumptions C18_injective.
+
+(* fixed tags are enforced on decode (function code; fixed byte values are part of fields_admit) *)
+Theorem C18_tags_enforced : forall L buf vs, wf_layout L = true -> unmarshal L buf = Ok vs ->
+  length buf = 64%nat /\ som_ok buf = true /\ msgtypes_match L buf = true /\ fields_admit L buf vs = true.
+Proof. exact unmarshal_enforces_tags. Qed.
+Print Assumptions C18_tags_enforced.
+
+(* ... and may be written in decimal, 0x.., upper-case hex digits or 0X.. *)
 Theorem C18_value_tag_spellings : forall n, n < 256 ->
   value_tag (tag_of (spell_dec n)) = Some (Some n) /\
   value_tag (tag_of (spell_hex false false n)) = Some (Some n) /\
@@ -10,3 +72,19 @@ Theorem C18_value_tag_spellings : forall n, n < 256 ->
   value_tag (tag_of (spell_hex true true n)) = Some (Some n).
 Proof. exact value_tag_spellings. Qed.
 Print Assumptions C18_value_tag_spellings.
+
+(* the decoded value depends on the header bytes and the fields' bytes only *)
+Theorem C18_frame : forall L b b',
+  length b = length b' -> (forall i, relevant L i = true -> nth i b 0 = nth i b' 0) -> unmarshal L b = unmarshal L b'.
+Proof. exact unmarshal_frame. Qed.
+Print Assumptions C18_frame.
+
+(* non-vacuity: a layout with a 16-bit field ending on the last byte, a pointer date and a fixed byte *)
+Definition ex_layout : layout :=
+  [FMsgType (Some (Some 0x20)); FData KSerial 4 None; FData KDateP 8 None; FData KU8 12 (Some (Some 0x55)); FData KU16 62 None].
+Definition ex_values : list fval := [VN 0; VN 405419896; VDate 2024 2 29; VN 0; VN 0xBEEF].
+Example C18_ex : wf_layout ex_layout = true /\ values_in_domain ex_layout ex_values = true /\
+  marshal ex_layout ex_values =
+    Ok ([0x17; 0x20; 0; 0; 0x78; 0x37; 0x2a; 0x18; 0x20; 0x24; 0x02; 0x29; 0x55] ++ repeat 0 49 ++ [0xEF; 0xBE]) /\
+  som_ok (spec_image ex_layout ex_values) = true.
+Proof. vm_compute. repeat split. Qed.
